@@ -147,6 +147,8 @@ class Interp(object):
                 return ('str', args[0][1])
         if name in ('strlen', '__builtin_strlen') and args and isinstance(args[0], tuple) and args[0][0] == 'str':
             return len(args[0][1])
+        if name in ('fabs', '__builtin_fabs') and args and isinstance(args[0], (int, float)):
+            return abs(float(args[0]))
         if name in ('compare_strings', 'strcmp', 'case_insensitive_strcmp') and len(args) >= 2 and \
                 all(isinstance(a, tuple) and a[0] == 'str' for a in args[:2]):
             # the comparators are TAB20's business; here they are their contract: the sign of the byte-wise comparison
@@ -240,8 +242,12 @@ class Interp(object):
                 return None
             return cv
         k = e.get('k')
+        if k == 'float':
+            return float(e['fval'])
         if k == 'cast':
             v = self.ev(e['e'], frame)
+            if isinstance(v, float) and frame['u'].ty(e['ty'])['c'] == 'int':
+                v = int(v)
             if isinstance(v, int) and not isinstance(v, bool):
                 # an explicit cast converts to its own type ('ty0' when an implicit conversion follows), then to 'ty'
                 for tid in ([e['ty0']] if 'ty0' in e else []) + [e['ty']]:
@@ -317,6 +323,8 @@ class Interp(object):
                 return old if op.startswith('post') else new
             if op in ('-', '~', '+'):
                 v = self.ev(e['e'], frame)
+                if isinstance(v, float) and op in ('-', '+'):
+                    return -v if op == '-' else v
                 if not isinstance(v, int):
                     raise AnalysisBroken('SHP: %s: arithmetic on a non-integer' % fn.where(e))
                 return {'-': -v, '~': ~v, '+': v}[op]
@@ -948,3 +956,106 @@ def shp4(units, R, fname='cJSON_Duplicate'):
     R.ob('SHP4', fn, None, '%s copies every kind of node with its whole payload' % fname, not bad,
          '%d cases' % n_cases if not bad else '%s (%d of %d cases wrong)' % (bad[0], len(bad), n_cases), key='dup:' + fname)
     R.floor('SHP4', 'duplication cases evaluated', n_cases, 40)
+
+
+# ---- SHP5: the comparison over short trees (bounded) ------------------------------------------------------------------------------
+
+def shp5(units, R, fname='cJSON_Compare'):
+    """cJSON_Compare evaluated over abstract heaps against the definition in the property: same kind; equal booleans / null; numbers by
+    compare_double; byte-equal text; arrays element by element in order, with the same length; objects with the same key set (exact
+    or ASCII-case-folded as the flag says) and equal values under each key whatever the order.  Every pair out of a family of short
+    trees - scalars of every kind, arrays of up to three scalars, objects of up to two members with keys from {a, A, b} - both
+    flag values, both argument orders; NULL arguments and invalid nodes compare unequal; the arguments are not modified.
+    Bounded (one level); the structural clauses of C12S are about every path."""
+    import itertools
+    u = units['cJSON.c']
+    if fname not in u.functions:
+        raise AnalysisBroken('SHP5: %s not found' % fname)
+    fn = u.functions[fname]
+    scal = [(1, None), (2, None), (4, None), (8, 1.0), (8, 2.0), (16, b'x'), (16, b'X'), (128, b'x')]
+
+    def build(heap, spec, name):
+        kind = spec[0]
+        if kind in (32, 64):
+            node = heap.new(name, type=kind)
+            kids = []
+            for i, item in enumerate(spec[1]):
+                key, sub = item if kind == 64 else (None, item)
+                kid = build(heap, sub, '%s.%d' % (name, i))
+                heap.nodes[kid[1]]['string'] = ('str', key) if key is not None else None
+                kids.append(kid)
+            for i, kid in enumerate(kids):
+                f = heap.nodes[kid[1]]
+                f['next'] = kids[i + 1] if i + 1 < len(kids) else None
+                f['prev'] = kids[i - 1] if i > 0 else kids[-1]
+            heap.nodes[node[1]]['child'] = kids[0] if kids else None
+            return node
+        return heap.new(name, type=kind, valuestring=('str', spec[1]) if kind in (16, 128) else None,
+                        valuedouble=spec[1] if kind == 8 else 0, valueint=int(spec[1]) if kind == 8 else 0)
+
+    def equal(x, y, cs):
+        if x[0] != y[0]:
+            return False
+        if x[0] in (1, 2, 4):
+            return True
+        if x[0] in (8, 16, 128):
+            return x[1] == y[1]
+        if x[0] == 32:
+            return len(x[1]) == len(y[1]) and all(equal(p_, q_, cs) for p_, q_ in zip(x[1], y[1]))
+        fold = (lambda k: k) if cs else (lambda k: k.lower())
+
+        def covered(src, dst):
+            for (k, v) in src:
+                m = [v2 for (k2, v2) in dst if fold(k2) == fold(k)]
+                if not m or not equal(v, m[0], cs):       # the library looks the key up and takes the first match
+                    return False
+            return True
+        return covered(x[1], y[1]) and covered(y[1], x[1])
+    small = [(8, 1.0), (16, b'x'), (2, None)]
+    trees = list(scal)
+    for n in range(0, 3):
+        trees += [(32, combo) for combo in itertools.product(small, repeat=n)]
+    trees.append((32, ((8, 1.0), (16, b'x'), (2, None))))
+    trees.append((32, ((8, 1.0), (16, b'x'), (1, None))))
+    keys = [b'a', b'A', b'b']
+    for n in range(0, 3):
+        for ks in itertools.permutations(keys, n):
+            for vals in itertools.product(small[:2], repeat=n):
+                trees.append((64, tuple(zip(ks, vals))))
+    # one more level: an object inside an array / inside an object, keys differing in case only
+    inner = [(64, ((b'a', (8, 1.0)),)), (64, ((b'A', (8, 1.0)),)), (64, ((b'a', (8, 2.0)),))]
+    trees += [(32, (o_,)) for o_ in inner] + [(64, ((b'k', o_),)) for o_ in inner] + [(32, ((8, 1.0), o_)) for o_ in inner[:2]]
+    bad = []
+    n_cases = 0
+    for x in trees:
+        for y in trees:
+            if x[0] in (32, 64) and y[0] in (32, 64) and x[0] == y[0] and len(x[1]) + len(y[1]) > 4:
+                continue
+            for cs in (1, 0):
+                n_cases += 1
+                heap = Heap()
+                a, b = build(heap, x, 'a'), build(heap, y, 'b')
+                before = _snapshot(heap)
+                try:
+                    r = Interp(units, heap).call(fname, [a, b, cs])
+                    want = equal(x, y, cs)
+                    if bool(r) != want:
+                        raise ShapeViolation('compared %s, by definition they are %s' % ('equal' if r else 'unequal', 'equal' if want else 'unequal'))
+                    if _snapshot(heap) != before:
+                        raise ShapeViolation('an argument was modified')
+                except ShapeViolation as v:
+                    bad.append('%r against %r, case_sensitive=%d: %s' % (x, y, cs, v))
+    # NULL arguments, invalid nodes, a node against itself
+    for (what, mk) in (('NULL against a node', lambda h: (None, h.new('b', type=8))), ('a node against NULL', lambda h: (h.new('a', type=8), None)),
+                       ('invalid nodes', lambda h: (h.new('a', type=0), h.new('b', type=0)))):
+        n_cases += 1
+        heap = Heap()
+        a, b = mk(heap)
+        try:
+            if Interp(units, heap).call(fname, [a, b, 1]):
+                raise ShapeViolation('compared equal')
+        except ShapeViolation as v:
+            bad.append('%s: %s' % (what, v))
+    R.ob('SHP5', fn, None, '%s agrees with the definition of equality on short trees' % fname, not bad,
+         '%d pairs x flag values' % n_cases if not bad else '%s (%d of %d cases wrong)' % (bad[0][:300], len(bad), n_cases), key='compare:' + fname)
+    R.floor('SHP5', 'comparisons evaluated', n_cases, 500)
